@@ -49,7 +49,9 @@ func runC17(c *mon.Ctx) {
 	// Part A': a root go.mod whose real content is exactly at (and one byte below) the documented size limit,
 	// declares go 1.24 behind megabytes of comment, and comes with the files the two vendoring variants treat
 	// differently: at the limit the file is still valid and its go version still counts.
-	for k, sz := range []int{refzip.MaxGoMod - 1, refzip.MaxGoMod} {
+	// One byte over the limit the go.mod itself is refused; the other files are still judged by the go version
+	// it declares (a refused file is not a missing file).
+	for k, sz := range []int{refzip.MaxGoMod - 1, refzip.MaxGoMod, refzip.MaxGoMod + 1} {
 		id := fmt.Sprintf("gomod-at-limit%d", k)
 		if !c.Mine(k) || !c.Want(id) {
 			continue
@@ -60,7 +62,7 @@ func runC17(c *mon.Ctx) {
 		data := append([]byte(head), pad[:sz-len(head)-len(tail)-1]...)
 		data = append(append(data, '\n'), tail...)
 		files := []*gen.ZFile{
-			{P: "go.mod", M: 0o644, Sz: int64(len(data)), Data: data, GoVersion: "1.24", GoModKind: "at-size-limit", Tag: "root-go.mod"},
+			{P: "go.mod", M: 0o644, Sz: int64(len(data)), Data: data, GoVersion: "1.24", GoModKind: []string{"below-size-limit", "at-size-limit", "over-size-limit"}[k], Tag: "root-go.mod"},
 			{P: "a.go", M: 0o644, Sz: 3, Data: []byte("abc")},
 			{P: "vendor/modules.txt", M: 0o644, Sz: 1, Data: []byte("x")},
 			{P: "pkg/vendor/vendor.go", M: 0o644, Sz: 1, Data: []byte("y")},
@@ -84,7 +86,7 @@ func runC17(c *mon.Ctx) {
 	// say so, and both ways of creating must fail
 	for k, sz := range []int64{refzip.MaxZipFile + 1, refzip.MaxZipFile - 2} {
 		id := fmt.Sprintf("tree-at-total-limit%d", k)
-		if !c.Mine(2+k) || !c.Want(id) {
+		if !c.Mine(3+k) || !c.Want(id) {
 			continue
 		}
 		files := []*gen.ZFile{{P: "go.mod", M: 0o644, Sz: 21, Data: []byte("module example.com/m\n")}, {P: "a.go", M: 0o644, Sz: 1, Data: []byte("x")},
